@@ -16,6 +16,7 @@ type bitStream interface {
 	drawBits(n int) uint64
 	beginGroup(label string, standalone bool) int
 	endGroup(i int, discard bool)
+	keepGroup(i int)
 }
 
 func baseSeed() uint64 {
@@ -131,6 +132,18 @@ func (rec *recordedBits) endGroup(i int, discard bool) {
 
 	rec.groups[i].end = len(rec.data)
 	rec.groups[i].discard = discard
+}
+
+// keepGroup makes sure that everything recorded since group i began is kept by prune():
+// when the group is going to be replayed as is, its rejected sub-attempts have to be replayed, too.
+func (rec *recordedBits) keepGroup(i int) {
+	if !rec.persist {
+		return
+	}
+
+	for j := i + 1; j < len(rec.groups); j++ {
+		rec.groups[j].discard = false
+	}
 }
 
 func (rec *recordedBits) prune() {
